@@ -81,3 +81,21 @@ Print Assumptions C14_api_extends_backtrack.
 Print Assumptions C14_api_extends_push_load.
 Print Assumptions C14_api_extends_branch_load.
 Print Assumptions C14_api_extends_branch_spurious.
+
+Require Import LV.PathExhaust.
+
+(* exhaustiveness of the depth-first loop: when the exploration finishes, every
+   alternative registered in an exploring entry of any executed iteration (a
+   Pending / Active / Visited thread, any index of a load's candidate list, either
+   value of a spurious branch) was the decision of some iteration with the same
+   decision prefix. iter_ok2: iterations keep "at most one Active thread per
+   entry" and append only fresh entries (true of the Path API: PathExhaust.*_wf2). *)
+Theorem C14_dfs_exhaustive :
+  forall it n p, iter_ok it -> iter_ok2 it -> wf_path p -> wf2_path p -> fresh_path p ->
+    finishes it n p = true ->
+    forall k ek q c, nth_error (explore it n p) k = Some ek -> registered ek q c ->
+    exists j ej, nth_error (explore it n p) j = Some ej /\
+                 firstn q (choices ej) = firstn q (choices ek) /\
+                 nth_error (choices ej) q = Some c.
+Proof. exact dfs_exhaustive. Qed.
+Print Assumptions C14_dfs_exhaustive.
